@@ -530,7 +530,7 @@ def iterRest (P : Problem S U α ρ) (st : St S U α ρ) (sel : Nat) (start : S)
       let g := P.goal reached
       if g.1 then ({ st3 with closest := g.2, lastGoal := some ni, isApprox := false }, .done)
       else
-        let st4 := if g.2 < st3.closest then { st3 with closest := g.2, lastGoal := some ni } else st3
+        let st4 := if st3.isApprox && decide (g.2 < st3.closest) then { st3 with closest := g.2, lastGoal := some ni } else st3
         match st4.motions[sel]? with
         | none => (st4, .halt)
         | some ms =>
@@ -620,8 +620,6 @@ theorem startF_onchain (P : Problem S U α ρ) (starts : List S) (ms : Array (PM
 theorem iterRest_good (P : Problem S U α ρ) (starts : List S) (st : St S U α ρ) (sel : Nat)
     (m : PMotion S U α) (start : S) (gb : Bool × ρ) (d : Draw S U)
     (hG : Good P starts st) (hg : GInv P st)
-    (hcase : st.isApprox = true ∨
-      ∀ a b, (P.goal a).1 = true → (P.goal b).1 = false → ¬ ((P.goal b).2 < (P.goal a).2))
     (hm : st.motions[sel]? = some m)
     (hstart : OnChain P.step st.motions sel start ∧ P.valid start = true) :
     Good P starts (iterRest P st sel start gb d).1 ∧ GInv P (iterRest P st sel start gb d).1 ∧
@@ -710,22 +708,14 @@ theorem iterRest_good (P : Problem S U α ρ) (starts : List S) (st : St S U α 
       · rw [if_neg hgoal]
         have hgf : (P.goal reached).1 = false := by simpa using hgoal
         -- st4
-        have h4 : ∀ st4 : St S U α ρ, st4 = (if (P.goal reached).2 < st3.closest then { st3 with closest := (P.goal reached).2, lastGoal := some st.motions.size } else st3) →
+        have h4 : ∀ st4 : St S U α ρ, st4 = (if (st3.isApprox && decide ((P.goal reached).2 < st3.closest)) = true then { st3 with closest := (P.goal reached).2, lastGoal := some st.motions.size } else st3) →
             Good P starts st4 ∧ GInv P st4 ∧ st4.isApprox = st.isApprox := by
           intro st4 e
-          by_cases hc : (P.goal reached).2 < st3.closest
+          by_cases hc : (st3.isApprox && decide ((P.goal reached).2 < st3.closest)) = true
           · rw [if_pos hc] at e
             rw [e]
             have hap3 : st3.isApprox = true := by
-              cases hap : st3.isApprox with
-              | true => rfl
-              | false =>
-                exfalso
-                obtain ⟨l, ml, _, _, b3, b4⟩ := hg3.2 hap
-                rw [b4] at hc
-                rcases hcase with hc1 | hc2
-                · rw [ha3, hc1] at hap; cases hap
-                · exact hc2 _ _ b3 hgf hc
+              simp only [Bool.and_eq_true] at hc; exact hc.1
             refine ⟨hG3, ⟨?_, fun h => by rw [show ({ st3 with closest := (P.goal reached).2, lastGoal := some st.motions.size } : St S U α ρ).isApprox = st3.isApprox from rfl, hap3] at h; cases h⟩, ha3⟩
             intro l hl
             cases Option.some.inj hl
@@ -733,7 +723,7 @@ theorem iterRest_good (P : Problem S U α ρ) (starts : List S) (st : St S U α 
           · rw [if_neg hc] at e
             rw [e]
             exact ⟨hG3, hg3, ha3⟩
-        generalize (if (P.goal reached).2 < st3.closest then ({ st3 with closest := (P.goal reached).2, lastGoal := some st.motions.size } : St S U α ρ) else st3) = st4 at h4 ⊢
+        generalize (if (st3.isApprox && decide ((P.goal reached).2 < st3.closest)) = true then ({ st3 with closest := (P.goal reached).2, lastGoal := some st.motions.size } : St S U α ρ) else st3) = st4 at h4 ⊢
         obtain ⟨hG4, hg4, ha4⟩ := h4 st4 rfl
         cases hsel4 : st4.motions[sel]? with
         | none => exact ⟨hG4, hg4, fun _ h => by cases h⟩
@@ -746,9 +736,7 @@ theorem iterRest_good (P : Problem S U α ρ) (starts : List S) (st : St S U α 
 
 theorem iter_good (P : Problem S U α ρ) (starts : List S)
     (hrng : ∀ g hi, 1 ≤ hi → 1 ≤ (P.rngInt1 g hi).1 ∧ (P.rngInt1 g hi).1 ≤ hi) (st0 : St S U α ρ) (d : Draw S U)
-    (hG : Good P starts st0) (hg : GInv P st0)
-    (hcase : st0.isApprox = true ∨
-      ∀ a b, (P.goal a).1 = true → (P.goal b).1 = false → ¬ ((P.goal b).2 < (P.goal a).2)) :
+    (hG : Good P starts st0) (hg : GInv P st0) :
     Good P starts (iter P st0 d).1 ∧ GInv P (iter P st0 d).1 ∧
       (st0.isApprox = true → (iter P st0 d).2 = .cont → (iter P st0 d).1.isApprox = true) := by
   rw [iter_eq]
@@ -773,30 +761,24 @@ theorem iter_good (P : Problem S U α ρ) (starts : List S)
       have hst := startF_onchain P starts _ e.key.2 (selM m0) hms hseg _ hk
       have := iterRest_good P starts (selSt st0 e.key.2 m0) e.key.2 (selM m0)
         (startF P (selM m0) (pdF P (selSt st0 e.key.2 m0) (selM m0)).1)
-        (gbF P (pdF P (selSt st0 e.key.2 m0) (selM m0)).2) d hGs (ginv_keeps P _ _ hKs hg)
-        (by rw [hKs.isApprox]; exact hcase) hms hst
+        (gbF P (pdF P (selSt st0 e.key.2 m0) (selM m0)).2) d hGs (ginv_keeps P _ _ hKs hg) hms hst
       exact ⟨this.1, this.2.1, fun ha => this.2.2 (by rw [hKs.isApprox]; exact ha)⟩
 
 theorem run_good (P : Problem S U α ρ) (starts : List S)
     (hrng : ∀ g hi, 1 ≤ hi → 1 ≤ (P.rngInt1 g hi).1 ∧ (P.rngInt1 g hi).1 ≤ hi) :
     ∀ (ds : List (Draw S U)) (st : St S U α ρ), Good P starts st → GInv P st →
-      (st.isApprox = true ∨
-        ∀ a b, (P.goal a).1 = true → (P.goal b).1 = false → ¬ ((P.goal b).2 < (P.goal a).2)) →
       Good P starts (run P st ds) ∧ GInv P (run P st ds) := by
   intro ds
   induction ds with
-  | nil => intro st h1 h2 _; exact ⟨h1, h2⟩
+  | nil => intro st h1 h2; exact ⟨h1, h2⟩
   | cons d ds ih =>
-    intro st h1 h2 h3
-    have hI := iter_good P starts hrng st d h1 h2 h3
+    intro st h1 h2
+    have hI := iter_good P starts hrng st d h1 h2
     simp only [run]
     split
     · rename_i st' heq
       rw [heq] at hI
-      refine ih st' hI.1 hI.2.1 ?_
-      rcases h3 with h3 | h3
-      · exact Or.inl (hI.2.2 h3 rfl)
-      · exact Or.inr h3
+      exact ih st' hI.1 hI.2.1
     · rename_i st' _ heq
       rw [heq] at hI
       exact ⟨hI.1, hI.2.1⟩
@@ -868,7 +850,7 @@ theorem solve_good (P : Problem S U α ρ) (hrng : ∀ g hi, 1 ≤ hi → 1 ≤ 
     (g : ρ) (starts : List S) (draws : List (Draw S U)) :
     Good P starts (solve P g starts draws).final ∧ GInv P (solve P g starts draws).final := by
   obtain ⟨h1, h2, h3, _⟩ := init_good P g starts
-  have h := run_good P starts hrng draws _ h1 h2 (Or.inl h3)
+  have h := run_good P starts hrng draws _ h1 h2
   unfold solve
   simp only
   split
@@ -1581,7 +1563,6 @@ theorem headFlags_ginv (P : Problem S U α ρ) (st : St S U α ρ)
 
 theorem resume_good (P : Problem S U α ρ) (starts : List S)
     (hrng : ∀ g hi, 1 ≤ hi → 1 ≤ (P.rngInt1 g hi).1 ∧ (P.rngInt1 g hi).1 ≤ hi)
-    (hgoal : ∀ a b, (P.goal a).1 = true → (P.goal b).1 = false → ¬ ((P.goal b).2 < (P.goal a).2))
     (st : St S U α ρ) (hG : Good P starts st) (hl : ∀ l, st.lastGoal = some l → ∃ m, st.motions[l]? = some m)
     (flag : Bool) (newStarts : List S) (draws : List (Draw S U)) :
     Good P (starts ++ newStarts) (resume P st flag newStarts draws).final ∧
@@ -1609,7 +1590,7 @@ theorem resume_good (P : Problem S U α ρ) (starts : List S)
       { st with isApprox := (headFlags P st).1, closest := (headFlags P st).2 }
       (fun s hs => ⟨List.mem_append_right _ (List.mem_filter.mp hs).1, (List.mem_filter.mp hs).2⟩) hG'
     have hg1 := ginv_keeps P _ _ hf.2 hg0
-    have hr := run_good P (starts ++ newStarts) hrng draws _ hf.1 hg1 (Or.inr hgoal)
+    have hr := run_good P (starts ++ newStarts) hrng draws _ hf.1 hg1
     split
     · exact ⟨hf.1, hg1.1, (fun h => by cases h), (fun p hp => by cases hp)⟩
     · split
@@ -1633,7 +1614,6 @@ inductive Reach (P : Problem S U α ρ) : List S → St S U α ρ → Prop
 
 theorem reach_good (P : Problem S U α ρ)
     (hrng : ∀ g hi, 1 ≤ hi → 1 ≤ (P.rngInt1 g hi).1 ∧ (P.rngInt1 g hi).1 ≤ hi)
-    (hgoal : ∀ a b, (P.goal a).1 = true → (P.goal b).1 = false → ¬ ((P.goal b).2 < (P.goal a).2))
     (starts : List S) (st : St S U α ρ) (h : Reach P starts st) :
     Good P starts st ∧ ∀ l, st.lastGoal = some l → ∃ m, st.motions[l]? = some m := by
   induction h with
@@ -1641,7 +1621,7 @@ theorem reach_good (P : Problem S U α ρ)
     have := solve_good P hrng g starts draws
     exact ⟨this.1, this.2.1⟩
   | again flag newStarts draws _ ih =>
-    have := resume_good P _ hrng hgoal _ ih.1 ih.2 flag newStarts draws
+    have := resume_good P _ hrng _ ih.1 ih.2 flag newStarts draws
     exact ⟨this.1, this.2.1⟩
 
 /-- the early return and the re-publication after the problem definition was cleared -/
